@@ -73,7 +73,11 @@ EXTRA_CLASSES = [("jinja2.compiler", ["CodeGenerator", "DependencyFinderVisitor"
                  ("jinja2.lexer", ["Lexer", "TokenStream"])]
 EXTRA_FUNCS = ["jinja2.compiler:generate", "jinja2.compiler:has_safe_repr", "jinja2.idtracking:find_symbols", "jinja2.idtracking:symbols_for_node",
                "jinja2.optimizer:optimize", "jinja2.environment:Environment._parse", "jinja2.environment:Environment._generate",
-               "jinja2.environment:Environment.compile", "jinja2.environment:Environment.iter_extensions", "jinja2.environment:load_extensions"]
+               "jinja2.environment:Environment.compile", "jinja2.environment:Environment.iter_extensions", "jinja2.environment:load_extensions",
+               # how an environment comes to its extensions / settings (the order of extensions decides preprocess, filter_stream, tags)
+               "jinja2.environment:Template.__new__", "jinja2.environment:get_spontaneous_environment", "jinja2.environment:Environment.__init__",
+               "jinja2.environment:Environment.add_extension", "jinja2.environment:Environment.extend", "jinja2.environment:Environment.overlay",
+               "jinja2.environment:Environment.preprocess", "jinja2.environment:Environment._tokenize", "jinja2.environment:Environment.from_string"]
 
 
 def extra_targets():
@@ -166,6 +170,14 @@ def corpus():
         "fold_object": "{{ 'x'|mkobj }}",
         "fold_set_assigned": "{% set s = 'x'|mkset %}{{ s }}{% set t = ['x'|mkset, 1] %}{{ t }}",
         "fold_set_argument": "{{ f('x'|mkset, k='y'|mkobj) }}{{ 'x'|mkset|length }}{{ ('x'|mkset)|sort|join(',') }}",
+        # nested folds: an un-representable intermediate value turned into a str by the next fold
+        "fold_nested_string": "{{ [1, 2]|batch(1)|string }}{{ [1]|unique|string|upper }}",
+        "fold_nested_concat": "{{ ''.join ~ 'x' }}{{ [1]|map('string') ~ '' }}",
+        "fold_nested_format": "{{ '%s'|format([1]|unique) }}{{ {'a': ''.join}|pprint }}",
+        "fold_nested_assign": "{% set v = [[1]|batch(1)]|join %}{{ v }}",
+        "fold_nested_getitem": "{{ ''['join']|string }}{{ ([1]|batch(1)).__class__|string }}",
+        # compiled through the Template constructor with two equal-priority extensions given by import name (see the seed script)
+        "template_ctor_extensions": "x @@ y",
         "syntax_error_eof": "{% for a in xs %}{% if a %}{% block b %}",
         "syntax_error_tag": "{% for a in xs %}{% endif %}",
         "unknown_tag": "{% for a in xs %}{% if a %}{% frobnicate %}{% endif %}{% endfor %}",
@@ -180,6 +192,26 @@ _corpus = json.loads(sys.stdin.read())
 corpus = lambda: _corpus
 out = {}
 want_src = set(sys.argv[1:])
+import types
+from jinja2 import Template
+from jinja2.ext import Extension
+_m = types.ModuleType("c30_exts")
+class First(Extension):
+    def preprocess(self, source, name, filename=None):
+        return source.replace("@@", "{{ first }}")
+class Second(Extension):
+    def preprocess(self, source, name, filename=None):
+        return source.replace("@@", "{{ second }}")
+for _c in (First, Second):
+    _c.__module__ = "c30_exts"
+    setattr(_m, _c.__name__, _c)
+sys.modules["c30_exts"] = _m
+try:
+    _t = Template(_corpus["template_ctor_extensions"], extensions=["c30_exts.First", "c30_exts.Second"])
+    _code = _t.environment.compile(_corpus["template_ctor_extensions"], "ctor", "ctor.html", raw=True)
+except Exception as ex:
+    _code = "EXC " + type(ex).__name__ + ": " + str(ex)
+out["template_ctor_extensions/ctor"] = _code if "template_ctor_extensions" in want_src else hashlib.sha1(_code.encode()).hexdigest()
 for is_async in (False, True):
     env = Environment(enable_async=is_async, extensions=["jinja2.ext.i18n", "jinja2.ext.do", "jinja2.ext.loopcontrols", "jinja2.ext.debug"])
     env.filters["mkset"] = lambda v: {"alpha", "beta", "gamma", "delta", "epsilon", "zeta"}
@@ -274,7 +306,10 @@ ORIGIN = re.compile(r"in ([^`]+)` over")
 
 def finding_origin(f):
     m = ORIGIN.search(f.msg)
-    return m.group(1).strip() if m else "?"
+    if m is None:
+        m = re.search(r"passed to `([\w.]+)` as `(\w+)`", f.msg)
+        return f"{m.group(1)}:{m.group(2)}" if m else "?"
+    return m.group(1).strip()
 
 
 def analysis_res(qual, name):
@@ -806,6 +841,73 @@ def consttext_tables(task, tier, seed):
             if isinstance(n, ast.Call) and ((isinstance(n.func, ast.Name) and n.func.id == "Const") or (isinstance(n.func, ast.Attribute) and n.func.attr == "Const")):
                 fails.append(f"{modname} line {n.lineno}: a Const node is built directly (`{ast.unparse(n)[:60]}`), not through Const.from_untrusted")
     row("const_nodes_guarded", fails)
+
+    # ---- intermediate folds: an as_const that calls into arbitrary Python (a filter / test function, environment.getattr /
+    #      getitem / call) may hand back a generator, a bound method, any object; a later fold (|string, ~, |join, |format)
+    #      turns its text into an ordinary str constant, which the final guard accepts.  Invariant: every as_const returns
+    #      only has_safe_repr values - leaves by construction, containers and Python operators on safe operands by closure,
+    #      and every opaque producer through an explicit guard.
+    fails = []
+    tree, src, path = extract.module_ast(N)
+    guards = set()
+    for fn in [n for n in tree.body if isinstance(n, ast.FunctionDef) and len(n.args.args) == 1]:
+        pname = fn.args.args[0].arg
+        stmts = [s_ for s_ in fn.body if not (isinstance(s_, ast.Expr) and isinstance(s_.value, ast.Constant)) and not isinstance(s_, (ast.Import, ast.ImportFrom))]
+        if (len(stmts) == 2 and isinstance(stmts[0], ast.If) and ast.unparse(stmts[0].test) == f"not has_safe_repr({pname})" and isinstance(stmts[0].body[0], ast.Raise)
+                and "Impossible" in ast.unparse(stmts[0].body[0]) and isinstance(stmts[1], ast.Return) and ast.unparse(stmts[1].value) == pname):
+            guards.add(fn.name)
+    n_opaque = 0
+    for cls in [n for n in tree.body if isinstance(n, ast.ClassDef)]:
+        for fn in [n for n in cls.body if isinstance(n, ast.FunctionDef) and n.name == "as_const"]:
+            binds = {}
+            for st_ in ast.walk(fn):
+                if isinstance(st_, ast.Assign) and len(st_.targets) == 1 and isinstance(st_.targets[0], ast.Name):
+                    binds.setdefault(st_.targets[0].id, []).append(st_)
+            params = {a.arg for a in fn.args.args}
+
+            def opaque(c):
+                f = c.func
+                if isinstance(f, ast.Attribute) and f.attr in ("getattr", "getitem", "call", "call_binop", "call_unop") and ast.unparse(f.value).endswith("environment"):
+                    return f"environment.{f.attr}"
+                if isinstance(f, ast.Name) and f.id in binds and f.id not in params:
+                    vals = [b.value for b in binds[f.id]]
+                    # python operators looked up in the module's operator tables: closed over safe operands
+                    if all(isinstance(v, ast.Subscript) and isinstance(v.value, ast.Name) and v.value.id.endswith("_to_func") for v in vals):
+                        return None
+                    return f"{f.id}(...) where {f.id} = {ast.unparse(vals[0])[:40]}"
+                return None
+
+            par = {}
+            for n in ast.walk(fn):
+                for ch in ast.iter_child_nodes(n):
+                    par[ch] = n
+            for c in [n for n in ast.walk(fn) if isinstance(n, ast.Call)]:
+                what = opaque(c)
+                if what is None:
+                    continue
+                n_opaque += 1
+                p_ = par.get(c)
+                where = f"nodes.{cls.name}.as_const line {c.lineno}"
+                if isinstance(p_, ast.Call) and isinstance(p_.func, ast.Name) and p_.func.id in guards and p_.args == [c]:
+                    continue
+                if not (isinstance(p_, ast.Assign) and len(p_.targets) == 1 and isinstance(p_.targets[0], ast.Name)):
+                    fails.append(f"{where}: the result of {what} is returned / used without a has_safe_repr guard: a generator or bound method folded here is "
+                                 "turned into an address-bearing str constant by the next fold (|string, ~, |join, |format)")
+                    continue
+                var = p_.targets[0].id
+                inline = [i for i in ast.walk(fn) if isinstance(i, ast.If) and ast.unparse(i.test) == f"not has_safe_repr({var})" and i.lineno > c.lineno
+                          and isinstance(i.body[0], ast.Raise) and "Impossible" in ast.unparse(i.body[0])]
+                for r in [r for r in ast.walk(fn) if isinstance(r, ast.Return) and r.value is not None and r.lineno > c.lineno
+                          and any(isinstance(x, ast.Name) and x.id == var for x in ast.walk(r.value))]:
+                    v = r.value
+                    ok = isinstance(v, ast.Call) and isinstance(v.func, ast.Name) and v.func.id in guards and [ast.unparse(a) for a in v.args] == [var]
+                    ok = ok or any(i.lineno < r.lineno for i in inline)
+                    if not ok:
+                        fails.append(f"{where}: `{var} = {what}` is returned at line {r.lineno} without a has_safe_repr guard: a generator or bound method folded "
+                                     "here is turned into an address-bearing str constant by the next fold (|string, ~, |join, |format)")
+    if n_opaque < 3:
+        fails.append(f"only {n_opaque} opaque fold sites found in nodes.py (expected the filter/test call, getattr, getitem)")
+    row("intermediate_folds_guarded", sorted(set(fails)))
     return rs
 
 
@@ -881,7 +983,8 @@ def consttext_native(task, tier, seed):
 def consttext_replay(w=None):
     rs = consttext_native(FnTask("C30", "C30.consttext.native", None, "bounded"), "quick", 0)
     v1 = rs[0].status == "refuted"
-    v2, d2 = replay_seeds({"templates": ["fold_generator", "fold_set", "fold_frozenset_nested", "fold_object", "fold_set_assigned", "fold_set_argument"]})
+    v2, d2 = replay_seeds({"templates": ["fold_generator", "fold_set", "fold_frozenset_nested", "fold_object", "fold_set_assigned", "fold_set_argument",
+                                          "fold_nested_string", "fold_nested_concat", "fold_nested_format", "fold_nested_assign", "fold_nested_getitem"]})
     return (v1 or v2, (rs[0].detail if v1 else "") + (" | " + d2 if v2 else "") or "accepted constants have process-independent text; folding templates compile identically")
 
 
@@ -1016,17 +1119,22 @@ def _keyed(t, k):
     return t
 
 
+def consttext_key(res):
+    return ",".join(sorted(set(re.findall(r"(?:nodes|CodeGenerator|NativeCodeGenerator)\.(\w+)\.as_const|has_safe_repr accepts type (\w+)", res.detail or "")) and
+                           {a or b for a, b in re.findall(r"(?:nodes)\.(\w+)\.as_const|has_safe_repr accepts type (\w+)", res.detail or "")})) or "?"
+
+
 def native_key(res):
     return res.name.rsplit(".", 1)[-1]
 
 
 TASKS = (
     [fuc_task(q) for q in FUC]
-    + [FnTask("C30", "C30.extra", extras, "path", replay_seeds),
+    + [_keyed(FnTask("C30", "C30.extra", extras, "path", replay_seeds), finding_key),
        FnTask("C30", "C30.lemma.branch_update", hard_timeout("C30.lemma.branch_update"), "vc", replay_seeds)]
     + [FnTask("C30", "C30.lemma.symbols_inv", hard_timeout("C30.lemma.symbols_inv", seconds=120), "vc", replay_seeds)]
     + [FnTask("C30", "C30.lemma.tables", symbols_tables, "table", replay_seeds),
-       FnTask("C30", "C30.consttext.tables", consttext_tables, "table", consttext_replay),
+       _keyed(FnTask("C30", "C30.consttext.tables", consttext_tables, "table", consttext_replay), consttext_key),
        FnTask("C30", "C30.consttext.native", consttext_native, "bounded", consttext_replay),
        FnTask("C30", "C30.typing.probe", typing_probe, "bounded", probe_replay),
        _keyed(FnTask("C30", "C30.native.hashseed", hashseed_standin, "bounded", replay_seeds), native_key)]
